@@ -44,6 +44,9 @@ CLAIMED = {
          "Structural necessary conditions of isolation decided from source: the action closure (called concurrently by all workers) writes no captured variable and hands none to a writing callee; the sink/function body gets a scope and an instance state allocated in the call; "
          "no Eval-path method writes memory reached from its runtime component or a shared AST node/token (lock-guarded provider tables excepted, C12); scope storage/children/parent only under the scope tree's lock. "
          "Decides what an invocation can write that another can see, not attribution values or library-internal races.", "3/C11"),
+ "C17": ("path-sensitive abstract interpretation (errpath) of the locator: check-to-use on the same SSA value under (ok=true, err=nil); who-may-open; enumeration of the containment predicate's return paths",
+         "Decides, on every path of the locator's source, that each file-system call takes the very value handed to the containment predicate and is reached only where the predicate returned (true, nil); that the import runtime reaches the file system only through Resolve; "
+         "and that the predicate can return true only with err=nil, no '..'+separator prefix and rel != '..' for Rel(root, sub). That filepath.Clean/Join/Rel normalise every string as intended is the standard library's contract and is not enumerated.", "3/C17"),
 }
 
 NOT_YET = "check not built yet in this session (see DESIGN.md section 3 for the planned static rule)"
